@@ -420,8 +420,10 @@ pub fn run(args: &Args) {
                 // (a marker may lead a longer value: its base64 image is that of its first 24 bytes)
                 let b64 = base64::Engine::encode(&base64::engine::general_purpose::STANDARD, &m[..m.len() / 3 * 3]);
                 let hexm = hex::encode(m);
-                if find_sub(body, m) || find_sub(body, b64.as_bytes()) || find_sub(body, hexm.as_bytes()) || find_sub(body, &utf16le(m)) {
-                    o.violation = Some("a content marker appears in clear (raw/base64/hex/UTF-16) in the saved file".into());
+                // anywhere in the file, the outer header included (it carries configuration only)
+                let all = &bytes[..];
+                if find_sub(all, m) || find_sub(all, b64.as_bytes()) || find_sub(all, hexm.as_bytes()) || find_sub(all, &utf16le(m)) {
+                    o.violation = Some(format!("a content marker appears in clear (raw/base64/hex/UTF-16) in the saved file{}", if find_sub(body, m) { "" } else { " - in the outer header" }));
                 }
             }
             if find_sub(body, b"<KeePassFile") || find_sub(body, b"<Entry>") || find_sub(body, b"<?xml") {
@@ -456,13 +458,36 @@ pub fn run(args: &Args) {
         o
     });
     }
+    // C07: the same for every composition of credentials (passwords of every kind, key files in every
+    // documented encoding and of every size up to 100 000 bytes, delivered in one piece or in many): the
+    // independent reader, which derives the key from the raw credentials itself, accepts the saved file
+    if prop == "C07" {
+        run_cases(&mut agg, args, "credentials", args.n(80, 1_500), |_i, rng, _model| {
+            let mut o = CaseOutcome::default();
+            // a quarter of the cases: a key file above 64 KiB (hashed as a whole)
+            let big = if rng.chance(1, 4) { let n = *rng.pick(&[65_537usize, 70_000, 100_000, 131_073]); let d = rng.bytes(n); let k = oracle::sha256(&d); Some(crate::kdbx2::Creds { password: if rng.chance(1, 2) { Some("pw".into()) } else { None }, keyfile: Some(d), keyfile_key: Some(k), kind: "hashed-arbitrary-bytes" }) } else { None };
+            let Some(base) = crate::kdbx2::make_base_with(rng, true, big) else { o.violation = Some("save failed".into()); return o; };
+            o.input = format!("(saved under creds {} password {:?} keyfile {} bytes)", base.creds.kind, base.creds.password, base.creds.keyfile.as_ref().map(|k| k.len()).unwrap_or(0));
+            o.tags.push(format!("creds:{}", base.creds.kind));
+            match strict::read(&base.bytes, &base.creds.elements()) {
+                Err(why) => o.violation = Some(format!("independent strict reader, keyed from the raw credentials, rejects the saved file: {}", why)),
+                Ok(s) => {
+                    let x = Database::get_xml(&mut &base.bytes[..], base.creds.key()).ok();
+                    let same = match &x { Some(x) if s.cipher == 1 && s.compression == 0 => x.len() >= s.xml.len() && x[..s.xml.len()] == s.xml[..], Some(x) => *x == s.xml, None => false };
+                    if !same { o.violation = Some("independent reader decodes another XML payload than the library".into()); }
+                }
+            }
+            o.nontrivial = true;
+            o
+        });
+    }
     write_report(
         args,
         &agg,
         if hostile {
             "databases from the hostile generator over the public structs (empty/blank strings and keys, C0/C1 controls, U+FFFE/FFFF, CR, separators, markup, Value::Bytes incl. invalid UTF-8, protected values empty / invalid UTF-8, empty icons and binaries, odd time-stamp names, sub-second times, extreme integers and dates) x cheap KDBX4 configurations; each is saved (random source scripted, plain sink; in half of the cases after earlier saves on the same thread that fail in the XML stage or in the sink) and re-opened under catch_unwind, and saved again into sinks that take 0, half and all but one of the bytes (success only with a readable file); stream `large`: hostile databases with 40..440 extra entries, a protected value and a Meta/Binaries attachment above 64 KiB; non-trivial = at least one hostile ingredient used; distinct = distinct (configuration, size, draws)"
         } else {
-            "databases over the whole public object model inside the lossless domain (every field of Database/Meta/Group/Entry/Times/AutoType/History/CustomData/BinaryAttachment/Icon/HeaderAttachment/DeletedObject, strings with markup, LF/TAB, leading/trailing blanks, astral code points, years 1..9999, integer extremes, colours with small components) x KDBX4 configurations (3 outer ciphers x 2 compressions x 3 inner ciphers x AES-KDF rounds, minor versions); saved with scripted draws into a plain sink (only `write`/`flush`; in half of the cases it accepts a bounded number of bytes per call; in half of the cases after earlier saves of the same database on the same thread that fail in the XML stage or in the sink), re-opened, decoded by the independent strict reader, and pushed through the extracted dump4/decrypt4 model; non-trivial = at least three nodes; distinct = distinct (configuration, size, draws); stream `large`: the same with 40..440 extra entries, one protected value above 64 KiB, a 1000-byte attachment, (two thirds of the cases) a Meta/Binaries attachment above 64 KiB - incompressible noise or 1 MiB of zeros, with and without the Compressed flag - and (every second case, ChaCha20 without compression) the payload sized to exactly 2^17/2^18/2^20/2^21 bytes or one byte off"
+            "(C07 also: stream credentials - small databases saved under every composition of credentials incl. key files up to 100 000 bytes; the independent reader keyed from the raw credentials must accept them) databases over the whole public object model inside the lossless domain (every field of Database/Meta/Group/Entry/Times/AutoType/History/CustomData/BinaryAttachment/Icon/HeaderAttachment/DeletedObject, strings with markup, LF/TAB, leading/trailing blanks, astral code points, years 1..9999, integer extremes, colours with small components) x KDBX4 configurations (3 outer ciphers x 2 compressions x 3 inner ciphers x AES-KDF rounds, minor versions); saved with scripted draws into a plain sink (only `write`/`flush`; in half of the cases it accepts a bounded number of bytes per call; in half of the cases after earlier saves of the same database on the same thread that fail in the XML stage or in the sink), re-opened, decoded by the independent strict reader, and pushed through the extracted dump4/decrypt4 model; non-trivial = at least three nodes; distinct = distinct (configuration, size, draws); stream `large`: the same with 40..440 extra entries, one protected value above 64 KiB, a 1000-byte attachment, (two thirds of the cases) a Meta/Binaries attachment above 64 KiB - incompressible noise or 1 MiB of zeros, with and without the Compressed flag - and (every second case, ChaCha20 without compression) the payload sized to exactly 2^17/2^18/2^20/2^21 bytes or one byte off"
         },
         serde_json::json!({}),
     );
